@@ -11,10 +11,13 @@ Decided clauses:
     `Cli::write`) every path consults `Writer::is_dirty`, writes CR LF on the `true` edge before any other
     sink write and before returning Ok, and does not write CR LF on the `false` edge.
  W  `Cli::write` performs no editor mutation.
-Not decided: that `is_dirty` computes "non-empty and not ending in a line break" as a value (Tier B).
+ D  dirty tracking: the `Writer` state (dirty flag, last bytes) is extracted as a finite-state machine over text *shapes*
+    (0 / 1 / 2 LFs followed by an LF-free tail that is empty, one char, or two-plus chars with the classes CR / other of its
+    last two chars) and every sequence of `write_str` / `writeln_str` calls, empty writes included, is explored to closure:
+    `is_dirty()` must equal "something was written and the output does not end with a line break".
 """
 from .. import facts as F
-from ..absint import (Interp, TOP, UNIT, TRUE, FALSE, U8_ANY, OPTION, none, some, const_int, mk_int, int_singleton)
+from ..absint import (Interp, TOP, UNIT, TRUE, FALSE, U8_ANY, OPTION, none, some, const_int, mk_int, int_singleton, Inconclusive)
 from .common import (EventRule, cli_entry_store, ret_is_err, ret_is_ok, lib_crate, SINKERR, outcomes_for_type,
                      strip_crate)
 from . import C14 as base
@@ -297,4 +300,183 @@ def run(ctx, res):
             if len(fr.sites.get(ev, ())) < floor:
                 raise KeyError("framing: event %s matched %d sites (< %d)" % (ev, len(fr.sites.get(ev, ())), floor))
         res.merge_rule(fr)
+        check_dirty(res, lib)
     res.exhaustive = True
+
+
+# ---------------------------------------------------------------------------------------------
+# D: dirty tracking as a finite-state machine over text shapes
+
+CR, OTHER = 'CR', 'x'
+
+
+def text_shapes():
+    """abstract texts: number of LFs (0, 1, 2) followed by a tail without LF: empty | one char | two or more chars, with
+    the classes (CR / other) of the last two characters"""
+    tails = [('E',)] + [('N', '1', None, c) for c in (CR, OTHER)] + [('N', '2+', a, b) for a in (CR, OTHER) for b in (CR, OTHER)]
+    out = []
+    for n in (0, 1, 2):
+        for t in tails:
+            out.append(('tstr', n, t))
+    return out
+
+
+def shape_name(t):
+    tail = t[2]
+    s = "LF·" * 0 + ("…\\n" * t[1])
+    if tail[0] == 'E':
+        return (s or '""') if s else '""'
+    if tail[1] == '1':
+        return s + ("\\r" if tail[3] == CR else "a")
+    return s + "…" + ("\\r" if tail[2] == CR else "a") + ("\\r" if tail[3] == CR else "b")
+
+
+class DirtyRule:
+    def inline_ok(self, I, ci, body):
+        # Writer methods call each other (writeln_str -> write_str): follow them
+        return base.self_adt(body) == 'writer::Writer'
+
+    def _cls(self, c):
+        return const_int(13) if c == CR else mk_int(x for x in range(256) if x not in (10, 13))
+
+    def on_call(self, I, w, ci, args):
+        p = ci.npath or ''
+        a0 = args[0] if args else TOP
+        if p.endswith('WriteExt::write_str') or p.endswith('WriteExt::write_bytes'):
+            from ..absint import ok
+            return [(w, ok(UNIT))]
+        if a0[0] != 'tstr':
+            if p == 'core::slice::<impl [T]>::iter' and a0[0] == 'tbytes':
+                return [(w, a0)]
+            if ci.name == 'position' and a0[0] == 'ref':
+                v = I.read(w, a0[1])
+                if v[0] == 'tstr':
+                    if not is_lf_pred(I, args[1]):
+                        return None
+                    return [(w, some(('sym', 'lfpos')))] if v[1] > 0 else [(w, none())]
+            return None
+        t = a0
+        if p == 'core::str::<impl str>::is_empty':
+            return [(w, TRUE if (t[1] == 0 and t[2][0] == 'E') else FALSE)]
+        if p in ('core::str::<impl str>::as_bytes',):
+            return [(w, t)]
+        if p == 'core::slice::<impl [T]>::iter':
+            return [(w, t)]
+        if p == 'core::str::<impl str>::len' or p == 'core::slice::<impl [T]>::len':
+            if t[1] == 0:
+                return [(w, ('sym', 'len'))]
+            return [(w, TOP)]
+        if p == 'core::str::<impl str>::get_unchecked':
+            r = args[1]
+            if r[0] == 'adt' and r[1].endswith('RangeTo') and r[3][0] == ('sym', 'lfpos'):
+                return [(w, ('sym', 'line'))]
+            if r[0] == 'adt' and r[1].endswith('RangeFrom') and r[3][0] == ('symoff', 'lfpos', 1) and t[1] > 0:
+                return [(w, ('tstr', t[1] - 1, t[2]))]
+            return [(w, TOP)]
+        return None
+
+    def on_symbranch(self, I, w, v, truth):
+        # comparisons of the symbolic length of an LF-free text with constants
+        if v[2] == ('sym', 'len') and v[3][0] == 'int':
+            c = int_singleton(v[3])
+            t = w.st
+            if t is None or c is None:
+                return w
+            tail = t[2]
+            n = 0 if tail[0] == 'E' else (1 if tail[1] == '1' else 2)
+            # n = 2 stands for ">= 2"
+            op = v[1]
+            def holds(x):
+                return {'Gt': x > c, 'Ge': x >= c, 'Lt': x < c, 'Le': x <= c, 'Eq': x == c, 'Ne': x != c}[op]
+            cands = [n] if n < 2 else [2, 3, 7]
+            res_ = {holds(x) for x in cands}
+            if res_ == {truth}:
+                return w
+            if truth in res_:
+                return w
+            return None
+        return w
+
+    def on_load(self, I, w, depth, place):
+        v = w.store.get((depth, place['l']), TOP)
+        if v[0] != 'tstr':
+            return None
+        idx = [e for e in place['p'] if e['k'] == 'index'][0]['l']
+        iv = w.store.get((depth, idx), TOP)
+        tail = v[2]
+        if iv == ('symoff', 'len', -1) and tail[0] == 'N':
+            return [(w, self._cls(tail[3]))]
+        if iv == ('symoff', 'len', -2) and tail[0] == 'N' and tail[1] == '2+':
+            return [(w, self._cls(tail[2]))]
+        return [(w, mk_int(range(256)))]
+
+
+def check_dirty(res, lib):
+    """is_dirty() == "something was written and the output does not end with a line break", for every sequence of
+    write_str / writeln_str calls with texts of every shape (empty writes included)."""
+    wr = {f.name: f for k, f in base.public_api(lib) if k == 'writer' and f.impl_trait is None}
+    isd = [f for f in lib.lib_fns() if base.self_adt(f) == 'writer::Writer' and f.name == 'is_dirty'][0]
+    new = [f for f in lib.lib_fns() if base.self_adt(f) == 'writer::Writer' and f.name == 'new'][0]
+    rule = DirtyRule()
+    I0 = Interp([lib], rule)
+    ex = I0.run(new, [TOP], None, {})
+    if len(ex) != 1:
+        raise Inconclusive("Writer::new has %d abstract results" % len(ex))
+    init = ex[0][1]
+
+    def is_dirty(state):
+        I = Interp([lib], rule)
+        outs = set()
+        for w, rv in I.run(isd, [('ref', (-1, 0, ()))], None, {(-1, 0): state}):
+            outs |= set(rv[1]) if rv[0] == 'int' and rv[2] is None else {0, 1}
+        return outs
+
+    ops = [('write_str', s) for s in text_shapes()] + [('writeln_str', s) for s in text_shapes()]
+    start = (init, False)
+    seen = {start: ()}
+    work = [start]
+    bad = []
+    while work:
+        nxt = []
+        for pair in work:
+            state, ref_dirty = pair
+            word = seen[pair]
+            got = is_dirty(state)
+            good = got == {1 if ref_dirty else 0}
+            res.oblige("D|%s" % (word,), good)
+            if not good:
+                bad.append((word, got, ref_dirty))
+                continue
+            for opn, shape in ops:
+                f = wr.get(opn)
+                if f is None:
+                    raise KeyError("Writer::%s not found" % opn)
+                I = Interp([lib], rule)
+                exits = I.run(f, [('ref', (-1, 0, ())), shape], shape, {(-1, 0): state})
+                if opn == 'writeln_str':
+                    nref = False
+                elif shape[1] == 0 and shape[2][0] == 'E':
+                    nref = ref_dirty
+                else:
+                    nref = shape[2][0] != 'E'
+                for w, rv in exits:
+                    ns = w.store[(-1, 0)]
+                    np_ = (ns, nref)
+                    if np_ not in seen:
+                        seen[np_] = word + ("%s(%s)" % (opn, shape_name(shape)),)
+                        nxt.append(np_)
+                        if len(seen) > 3000:
+                            raise Inconclusive("Writer state space exceeds 3000")
+        work = nxt
+    res.extra['writer_states'] = len(seen)
+    if len(seen) < 3:
+        raise KeyError("Writer state machine has only %d states" % len(seen))
+    if bad:
+        bad.sort(key=lambda x: len(x[0]))
+        word, got, ref_dirty = bad[0]
+        res.add_violation(dict(
+            rule='C13.dirty', key="C13|dirty|writer::Writer::is_dirty",
+            msg="after %s, Writer::is_dirty() is %s but the output %s (%d call sequences affected): the line break before the next "
+                "prompt would be %s" % (" ; ".join(word) or 'nothing', sorted(got),
+                                        "is non-empty and does not end with a line break" if ref_dirty else "is empty or ends with a line break",
+                                        len(bad), "missing" if ref_dirty else "duplicated")))
